@@ -245,6 +245,9 @@ func hostileEdits(rng *rand.Rand) [][]editCall {
 		{{Op: "bulk", Elems: []bulkEl{}}}, {{Op: "bulk", Elems: []bulkEl{el("g", "none", "")}}}, {{Op: "bulk", Elems: []bulkEl{el("", "v", "x")}}},
 		{{Op: "bulk", Elems: []bulkEl{el("g", "v", ""), el("g", "e", ""), {Graph: "g", Kind: "e", ID: "e9", Label: "", From: "", To: ""}}}},
 		{{Op: "bulk", Elems: []bulkEl{el("g__schema__", "v", "x"), el("g", "v", "x"), el("g__schema__", "v", "y")}}},
+		// a blank graph name right after a failed switch (the handler's own "no graph" value), and after a good one
+		{{Op: "bulk", Elems: []bulkEl{el("missing", "v", "x"), el("", "v", "y"), el("", "e", "z")}}},
+		{{Op: "bulk", Elems: []bulkEl{el("g", "v", "x"), el("", "v", "y"), el("g", "v", "z"), el("missing", "v", "q"), el("", "v", "r")}}},
 		{{Op: "addv", Graph: "missing", ID: "x", Label: "L"}, {Op: "adde", Graph: "missing", ID: "x", Label: "L", From: "a", To: "b"}, {Op: "delv", Graph: "missing", ID: "x"}, {Op: "dele", Graph: "missing", ID: "x"},
 			{Op: "delgraph", Graph: "missing"}, {Op: "getv", Graph: "missing", ID: "x"}, {Op: "gete", Graph: "missing", ID: "x"}, {Op: "labels", Graph: "missing"}},
 		{{Op: "addv", Graph: "g", ID: "", Label: ""}, {Op: "adde", Graph: "g", ID: "", Label: "L", From: "", To: ""}, {Op: "delv", Graph: "g", ID: "nope"}, {Op: "dele", Graph: "g", ID: "nope"}, {Op: "getv", Graph: "g", ID: "nope"}, {Op: "gete", Graph: "g", ID: "nope"}},
